@@ -45,13 +45,13 @@ theorem loopNext_act {unregister : Bool} {c : Cfg} {ctl ctl' : Ctl} {l : Local} 
 
 /-! ### valid loop schedules -/
 
-/-- the loop schedules the property quantifies over: the clock does not go backwards, `ClaimTokensFor` is asked of a
-registered instance for somebody else, foreign writers respect every lifecycler's frame and keep the ring a map.
+/-- the loop schedules the property quantifies over: the clock does not go backwards, `ClaimTokensFor` is asked for
+somebody else's tokens, foreign writers respect every lifecycler's frame and keep the ring a map.
 (The store accepts the writes: loop events run their handler without a fault.) -/
 def LGood (s : LSys) : LAct → Prop
   | .loop i ev now _ => s.w.clock ≤ now ∧
       ∀ nd frm, s.w.nodes[i]? = some nd → ev = .actor (.claim frm) →
-        frm ≠ nd.cfg.id ∧ (Desc.get? (s.w.store.getD []) nd.cfg.id).isSome
+        frm ≠ nd.cfg.id
   | .env st now => s.w.clock ≤ now ∧ WF (st.getD []) ∧ ∀ m ∈ s.w.nodes, EnvOK m.cfg.id s.w.store st
 
 def LRunGood (unreg : Nat → Bool) : LSys → List LAct → Prop
@@ -203,10 +203,13 @@ theorem write_has_own {c : Cfg} {l : Local} {file : File} {din : Option Desc} {e
     · simp [lcAutoJoin] at h; subst h; exact hput _ _ rfl
     · simp at h
   case LC.verify =>
-    simp only [lcVerify, reduceCtorEq, if_false] at h
-    split at h
-    · simp at h
-    · simp only [CasOut.write.injEq] at h; subst h; exact hput _ _ rfl
+    cases hg : Desc.get? (din.getD []) c.id with
+    | none => simp [lcVerify, hg] at h; subst h; exact hput _ _ rfl
+    | some e0 =>
+      simp only [lcVerify, reduceCtorEq, if_false, hg] at h
+      split at h
+      · simp at h
+      · simp only [CasOut.write.injEq] at h; subst h; exact hput _ _ rfl
   case LC.heartbeat => simp [lcUpdate] at h; subst h; exact hput _ _ rfl
   case LC.changeState =>
     simp only [lcChangeState] at h
@@ -222,10 +225,13 @@ theorem write_has_own {c : Cfg} {l : Local} {file : File} {din : Option Desc} {e
     cases din with
     | none => simp [lcClaim] at h
     | some d =>
-      simp only [lcClaim, reduceCtorEq, if_false, CasOut.write.injEq] at h
+      rw [lcClaim_out (by decide)] at h
+      simp only [CasOut.write.injEq] at h
       subst h
+      unfold claimOn
       apply hput
-      cases hs : Desc.get? (match Desc.get? d frm with | some f => put d { f with tokens := [] } | none => d) c.id with
+      cases hs : Desc.get? (match Desc.get? (claimBase c l d now) frm with
+          | some f => put (claimBase c l d now) { f with tokens := [] } | none => claimBase c l d now) c.id with
       | none => rfl
       | some i => simpa using get?_some_id hs
   case BLC.verify =>
@@ -471,8 +477,11 @@ theorem step_started {c : Cfg} {l : Local} {file : File} {din : Option Desc} {e 
   all_goals (have hs' : l.started = true := by rcases hs with h | ⟨_, h⟩ <;> first | exact h | cases h)
   all_goals simp only [step, hk, hs', Bool.not_true, Bool.false_eq_true, if_false]
   all_goals try (simp [noop, hs']; done)
-  case LC.joinTimer => simp only [lcJoinTimer]; split <;> simp [lcAutoJoin, hs']
-  case LC.verify => simp [lcVerify, hs']
+  case LC.joinTimer =>
+    simp only [lcJoinTimer]; split
+    · cases hg : Desc.get? (din.getD []) c.id <;> simp [lcAutoJoin, hg, hs']
+    · simp [hs']
+  case LC.verify => cases hg : Desc.get? (din.getD []) c.id <;> simp [lcVerify, hg, hs']
   case LC.heartbeat => exact lcUpdate_started hs'
   case LC.changeState =>
     simp only [lcChangeState]; split
@@ -482,7 +491,10 @@ theorem step_started {c : Cfg} {l : Local} {file : File} {din : Option Desc} {e 
     simp only [lcChangeRO]; split
     · exact hs'
     · exact lcUpdate_started (l := { l with ro := _, roTs := _ }) hs'
-  case LC.claim => cases din <;> simp [lcClaim, hs']
+  case LC.claim =>
+    cases din with
+    | none => simp [lcClaim, hs']
+    | some d => cases hg : Desc.get? d c.id <;> simp [lcClaim, hg, hs']
   case LC.unregister => cases din <;> simp [lcUnregister, hs']
   case LC.checkReady => exact (lcCheckReady_keeps c l din now _).1.trans hs'
   all_goals first
@@ -608,7 +620,7 @@ theorem heartbeat_enabled (unregister : Bool) (c : Cfg) (ctl : Ctl) (l : Local) 
 
 /-- `verifyTokens` on a mismatch: the ring's tokens of the own entry are kept and topped up to `numTokens` -/
 theorem lc_verify_tokens {c : Cfg} {l : Local} {file : File} {din : Option Desc} {now : Int} {gen : Gen}
-    (hk : c.kind = .LC) (hs : l.started = true) (hg : GenOK gen)
+    (hk : c.kind = .LC) (hs : l.started = true) (hg : GenOK gen) {e0 : Inst} (hpres : Desc.get? (din.getD []) c.id = some e0)
     (hne : sortNat (tokensOf (din.getD []) c.id) ≠ sortNat l.tokens)
     (hnd : (tokensOf (din.getD []) c.id).Nodup) (hle : (tokensOf (din.getD []) c.id).length ≤ c.numTokens) :
     ∃ d' b, (step c l file din .verify now gen .none).out = .write d' ∧ Desc.get? d' c.id = some b ∧
@@ -618,7 +630,7 @@ theorem lc_verify_tokens {c : Cfg} {l : Local} {file : File} {din : Option Desc}
       (∀ t ∈ tokensOf (din.getD []) c.id, t ∈ b.tokens) ∧
       (∀ t ∈ b.tokens, t ∈ tokensOf (din.getD []) c.id ∨ ∀ i ∈ din.getD [], t ∉ i.tokens) := by
   have h := topup_ok hg (tokensOf_sub_all (din.getD []) c.id) hnd hle
-  simp only [step, hk, hs, Bool.not_true, Bool.false_eq_true, if_false, lcVerify, reduceCtorEq, hne, decide_false]
+  simp only [step, hk, hs, Bool.not_true, Bool.false_eq_true, if_false, lcVerify, reduceCtorEq, hpres, hne, decide_false]
   refine ⟨_, _, rfl, get?_put_self _ _, by simp, rfl, rfl, h.1, h.2.1, h.2.2.1, ?_⟩
   intro t ht
   rcases h.2.2.2 t ht with h1 | h1
